@@ -320,20 +320,67 @@ func c02ModelEnd(r *c02Runner, before, after *c02View) string {
 	if r.rep.H <= 1 || r.blockVals == nil {
 		return ""
 	}
-	for _, u := range r.in.diff(before.Led, after.Led) {
-		if u.B != c02BFee && u.B != c02BUnstake && u.B != c02BWithdraw {
+	// guilty verdicts of this step (new BYZANTINE_FAULT freeze records), in the order the requests are decided;
+	// the penalty amount depends on the order only when one validator is convicted twice: not modelled then
+	verdictVals := []string{}
+	for k := range after.Byz {
+		if !before.Byz[k] {
+			verdictVals = append(verdictVals, k[:strings.Index(k, "@")])
+		}
+	}
+	sort.Strings(verdictVals)
+	for i := 1; i < len(verdictVals); i++ {
+		if verdictVals[i] == verdictVals[i-1] {
 			return ""
 		}
 	}
-	fo, err := governance.NewStore("g", r.rep.A.VerifDeliver()).GetFeeOption()
+	for _, u := range r.in.diff(before.Led, after.Led) {
+		switch u.B {
+		case c02BFee, c02BUnstake, c02BWithdraw:
+		case c02BStake, c02BBal:
+			if len(verdictVals) == 0 {
+				return ""
+			}
+		default:
+			return ""
+		}
+	}
+	if len(after.Fin) != len(before.Fin) {
+		return "" // proposal finalisation / distribution: monitored, not modelled (C14)
+	}
+	gov := governance.NewStore("g", r.rep.A.VerifDeliver())
+	fo, err := gov.GetFeeOption()
 	if err != nil {
 		return ""
 	}
 	vals := []string{}
 	tp := int64(0)
+	stakeOf := map[string]string{}
 	for _, v := range r.blockVals {
 		vals = append(vals, fmt.Sprintf("(%d%%N,%s)", r.in.owner(v.StakeAddress.String()), c02Z(strconv.FormatInt(v.Power, 10))))
 		tp += v.Power
+		stakeOf[v.Address.String()] = v.StakeAddress.String()
 	}
-	return fmt.Sprintf("fun l => Some (end_ops l %d %d %s %s [%s])", r.rep.H, r.in.owner(c02FeePoolOwner), c02Z(fo.MinFee().Amount.BigInt().String()), c02Z(strconv.FormatInt(tp, 10)), strings.Join(vals, ";"))
+	base := fmt.Sprintf("%d %d %s %s [%s]", r.rep.H, r.in.owner(c02FeePoolOwner), c02Z(fo.MinFee().Amount.BigInt().String()), c02Z(strconv.FormatInt(tp, 10)), strings.Join(vals, ";"))
+	if len(verdictVals) == 0 {
+		return fmt.Sprintf("fun l => Some (end_ops l %s)", base)
+	}
+	eo, err := gov.GetEvidenceOptions()
+	if err != nil {
+		return ""
+	}
+	po, err := gov.GetProposalOptions()
+	if err != nil {
+		return ""
+	}
+	vd := []string{}
+	for _, val := range verdictVals {
+		st, ok := stakeOf[val]
+		if !ok {
+			continue // no record at the previous version: the code skips the penalty
+		}
+		vd = append(vd, fmt.Sprintf("(%d%%N,%d%%N)", r.in.owner(st), r.in.owner(val)))
+	}
+	return fmt.Sprintf("fun l => Some (end_ops_verdicts l %s %d %d %d %d %d [%s])", base, r.in.owner(keys.Address(po.BountyProgramAddr).String()),
+		eo.PenaltyBasePercentage, eo.PenaltyBaseDecimals, eo.PenaltyBountyPercentage, eo.PenaltyBountyDecimals, strings.Join(vd, ";"))
 }
